@@ -73,37 +73,29 @@ pub fn jobs(tier: Tier, seed: u64) -> Vec<Job> {
     groups.push(g1b);
     // ---- (2) graph algorithms with adversarial argsort and key order
     let graph_cfg = adv(tier, false, true, true, true);
-    let mut g2 = vec![];
-    for src in [super::c15::jobs(tier, seed), super::c18::jobs(tier, seed)] {
-        for j in src {
+    // (one group per source list: the round-robin below gives each operation family its share of the budget)
+    for src in [super::c15::jobs(tier, seed), super::c18::jobs(tier, seed), super::c16::jobs_with(tier, seed, false), super::c17::jobs(tier, seed).into_iter().filter(|j| j.name.ends_with("[dev]")).collect()] {
+        let mut g2 = vec![];
+        // (the Vec-conformance jobs of those lists run the Vec backend itself: nothing adversarial to resolve)
+        for j in src.into_iter().filter(|j| !j.name.starts_with("[Vec backend conformance]")) {
             let mut j = rename(j, "argsort+keys");
             j.cfg = graph_cfg.clone();
             j.mandatory = false;
             g2.push(j);
         }
+        groups.push(g2);
     }
-    groups.push(g2);
-    let mut g2b = vec![];
-    for src in [super::c16::jobs_with(tier, seed, false), super::c17::jobs(tier, seed).into_iter().filter(|j| j.name.ends_with("[dev]")).collect()] {
-        for j in src {
-            let mut j = rename(j, "argsort+keys");
-            j.cfg = graph_cfg.clone();
-            j.mandatory = false;
-            g2b.push(j);
-        }
-    }
-    groups.push(g2b);
     // ---- (3) functor / optic application: adversarial argsort, keys, filler; canonical numbering
-    let mut g3 = vec![];
     for src in [super::c12::jobs(tier, seed), super::c14::jobs(tier, seed)] {
-        for j in src.into_iter().take(400) {
+        let mut g3 = vec![];
+        for j in src.into_iter().filter(|j| !j.name.contains("native functor path") && !j.name.starts_with("lax ")).take(400) {
             let mut j = rename(j, "argsort+keys+filler");
             j.cfg = graph_cfg.clone();
             j.mandatory = false;
             g3.push(j);
         }
+        groups.push(g3);
     }
-    groups.push(g3);
     // round-robin
     for g in groups.iter_mut() {
         g.reverse();
